@@ -9,6 +9,7 @@ import (
 	"fmt"
 	"go/token"
 	"go/types"
+	"math"
 	"path"
 	"sort"
 	"strconv"
@@ -137,6 +138,24 @@ func init() {
 		"path.Join":         extPathJoin,
 		"path/filepath.Join": extPathJoin,
 		"sort.Strings":      extSortStrings,
+
+		"math.Ceil":    func(fr *frame, a []value) value { return math.Ceil(a[0].(float64)) },
+		"math.Floor":   func(fr *frame, a []value) value { return math.Floor(a[0].(float64)) },
+		"math.Trunc":   func(fr *frame, a []value) value { return math.Trunc(a[0].(float64)) },
+		"math.Pow":     func(fr *frame, a []value) value { return math.Pow(a[0].(float64), a[1].(float64)) },
+		"math.Log":     func(fr *frame, a []value) value { return math.Log(a[0].(float64)) },
+		"math.Log2":    func(fr *frame, a []value) value { return math.Log2(a[0].(float64)) },
+		"math.Exp":     func(fr *frame, a []value) value { return math.Exp(a[0].(float64)) },
+		"math.Sqrt":    func(fr *frame, a []value) value { return math.Sqrt(a[0].(float64)) },
+		"math.Abs":     func(fr *frame, a []value) value { return math.Abs(a[0].(float64)) },
+		"math.Max":     func(fr *frame, a []value) value { return math.Max(a[0].(float64), a[1].(float64)) },
+		"math.Min":     func(fr *frame, a []value) value { return math.Min(a[0].(float64), a[1].(float64)) },
+		"math.IsNaN":   func(fr *frame, a []value) value { return math.IsNaN(a[0].(float64)) },
+		"math.IsInf":   func(fr *frame, a []value) value { return math.IsInf(a[0].(float64), int(asInt64(a[1]))) },
+		"math.Inf":     func(fr *frame, a []value) value { return math.Inf(int(asInt64(a[0]))) },
+		"math.NaN":     func(fr *frame, a []value) value { return math.NaN() },
+		"math.Float64bits":     func(fr *frame, a []value) value { return math.Float64bits(a[0].(float64)) },
+		"math.Float64frombits": func(fr *frame, a []value) value { return math.Float64frombits(a[0].(uint64)) },
 
 		"os.Getenv":       func(fr *frame, a []value) value { return "" },
 		"runtime.Gosched": func(fr *frame, a []value) value { fr.i.park(fr.g, "gosched", func() bool { return true }); return nil },
